@@ -202,7 +202,8 @@ fn any_dependency_changed<Db: Database>(db: &Db, derived_node_id: DerivedNodeId)
 fn source_node_changed_since<Db: Database>(db: &Db, key: Key, since: Epoch) -> bool {
     match db.get_storage().internal.get_source_node(key) {
         Some(source) => source.time_updated > since,
-        None => true,
+        // The source is absent: it changed iff it was removed after `since`.
+        None => db.get_storage().internal.source_removed_epoch(key) > since,
     }
 }
 
